@@ -1137,11 +1137,32 @@ def rule_PO(run: Run) -> RuleResult:
             if isinstance(test, ast.UnaryOp) and isinstance(test.op, ast.Not):
                 return positive(test.operand, want) and not isinstance(test.operand, ast.BoolOp)
             return False
+        def other_dict(test, want) -> bool:
+            """The test, when true, establishes the presence of the same key in ANOTHER dictionary."""
+            if isinstance(test, ast.Call) and test in asks:
+                return sig(test)[0] == want[0] and sig(test)[1] != want[1]
+            if isinstance(test, ast.BoolOp) and isinstance(test.op, ast.And):
+                return any(other_dict(v_, want) for v_ in test.values)
+            return False
         for g in gets:
             if not isinstance(astu.expand_locals(g.args[1], amap_), (ast.Name, ast.Attribute)):
                 continue        # looked up in a dictionary computed on the spot (the mix of two): what it holds is not decided here
-            n_lk += 1
             want = sig(g)
+            # judged are the look-ups that sit directly behind a presence test of their key in another dictionary (the earlier operand of
+            # the same ``and``, the test of the enclosing ``if``): there the function shows what it means to ask, and asks the wrong one
+            wrong_guard = False
+            cur0 = g
+            while id(cur0) in pm_:
+                up0 = pm_[id(cur0)]
+                if isinstance(up0, ast.BoolOp) and isinstance(up0.op, ast.And):
+                    i0 = next(i for i, v_ in enumerate(up0.values) if v_ is cur0)
+                    wrong_guard = wrong_guard or any(other_dict(v_, want) for v_ in up0.values[:i0])
+                elif isinstance(up0, (ast.If, ast.IfExp)) and any(cur0 is b_ for b_ in (up0.body if isinstance(up0.body, list) else [up0.body])):
+                    wrong_guard = wrong_guard or other_dict(up0.test, want)
+                cur0 = up0
+            if not wrong_guard:
+                continue
+            n_lk += 1
             covered = False
             cur = g
             while id(cur) in pm_ and not covered:
@@ -1180,7 +1201,8 @@ def rule_PO(run: Run) -> RuleResult:
                     "uncached one returns a value (C01)")
     res.count("guarded_lookups", n_lk)
     if n_lk == 0:
-        res.add("labrea:no look-up next to a presence test", True, "", 0, "no function both asks dotted_key_exists and calls get_dotted_key", nec, trivial=True)
+        res.add("labrea:no look-up behind a presence test of another dictionary", True, "", 0,
+                "no get_dotted_key(k, d) sits directly behind a dotted_key_exists(k, d') with another dictionary", nec, trivial=True)
     return res
 
 
